@@ -20,7 +20,7 @@ class C03(RecorderProp):
             'keyword arguments; the expected recorded and replayed output maps are computed from the programs alone and the set '
             'of differing entries is compared with the set predicted from the edit; non-trivial = at least one output call; '
             'distinct = distinct canonical case')
-    N = {'quick': 400, 'thorough': 8000}
+    N = {'quick': 2500, 'thorough': 25000}
 
     # -- generation -------------------------------------------------------------------------------------------
     def gen_one(self, rng, tier):
